@@ -6,7 +6,10 @@
 //	Searcher.SearchDocs over real active/sealed fractions built by FracManager (+ one real fraction
 //	    holding everything as the reference)
 //	search.Ingestor.Search over in-process stores (storeapi.GrpcV1.Search on real FracManagers),
-//	    shards x replicas, failing replicas, page walks
+//	    shards x replicas, failing replicas, page walks; with ShouldFetch (real GrpcV1.Fetch), ShuffleReplicas off
+//	    and on in every order of the replicas: source / hint / delivered document of every listed ID
+//	Searcher.SearchDocs and Ingestor.Search with a field aggregation (sum/min/max/avg(v) group by g): the
+//	    mergeable state of every bin against a real one-fraction reference and the direct computation
 //
 // and writes every observation as a Coq case (props/C05/coq/CaseDefs.v).
 package main
